@@ -26,7 +26,7 @@ m = {
     "setup_cmd": "./check --setup",
     "hooks": {"guard": "IPHREEQC_VERIF",
               "enable": "no source hooks are needed: checks build /repo's working tree out of tree (cmake+ninja, -DIPHREEQC_VERIF on the command line) into /verif/.cache/build-* and observe through a harness subclass of IPhreeqc",
-              "baseline_off_cmd": "cmake --build /repo/_build -j16 && ctest --test-dir /repo/_build -j8 --timeout 900",
+              "baseline_off_cmd": "cmake --build /repo/_build -j16 && ctest --test-dir /repo/_build -j1 --timeout 900",
               "source_commits": [], "add_only": True},
     "engines": [
         {"name": "coq", "path": "/verif/coq", "serves_properties": [c["property_id"] for c in checks], "kind_free_text": "Coq 8.16.1 development: executable models, specifications, theorems (Props/Properties_<id>.v), generated Gen/ files regenerated from /repo on every run"},
